@@ -391,6 +391,7 @@ pub fn record(args: &[String]) {
     let n = arg_u64(args, "--n", 500);
     let corrupt_pct = arg_u64(args, "--corrupt", 0);
     let char_corrupt_pct = arg_u64(args, "--charcorrupt", 0);
+    let random_layout = args.iter().any(|a| a == "--layout");
     let mut user_ops: Vec<String> = Vec::new();
     if let Some(f) = arg_value(args, "--ops-file") {
         register_ops_file(&f);
@@ -407,6 +408,25 @@ pub fn record(args: &[String]) {
         }
         // layout: single spaces (other layouts are C11's)
         let mut text = toks.join(" ");
+        if random_layout {
+            // whitespace strings over {space, tab, CR, LF} at every gap; nothing at all next to a delimiter (sometimes)
+            let isd = |t: &String| matches!(t.as_str(), "(" | ")" | "[" | "]" | "{" | "}");
+            text = String::new();
+            for (i, t) in toks.iter().enumerate() {
+                let near = i > 0 && (isd(&toks[i - 1]) || isd(t));
+                if i == 0 || near {
+                    if rng.gen_bool(0.6) {
+                        text.push_str(GAPS[rng.gen_range(0..GAPS.len())]);
+                    }
+                } else {
+                    text.push_str(GAPS[rng.gen_range(0..GAPS.len())]);
+                }
+                text.push_str(t);
+            }
+            if rng.gen_bool(0.5) {
+                text.push_str(GAPS[rng.gen_range(0..GAPS.len())]);
+            }
+        }
         if rng.gen_range(0..100) < char_corrupt_pct {
             text = corrupt_chars(&mut rng, &text);
         }
@@ -428,4 +448,250 @@ pub fn one(args: &[String]) {
     let text = unesc(&args[0]);
     let (ok, panicked, ast) = parse_observe(&text);
     println!("{}", json!({"ok": ok, "panic": panicked, "ast": if ok { ast } else { json!([]) }}));
+}
+
+// ---------------------------------------------------------------------------------------------
+// C12: expr() round trip.  C11: layouts and redundant parentheses.
+
+/// Checks on one parsed tree: expr() re-parses to the same tree, rendering is idempotent, describe() returns.
+/// Returns (reason of failure if any, trace record for TLC: the tokens of the rendered text with the tree it must mean).
+fn render_check(text: &str) -> Option<(Option<String>, J)> {
+    let src = leak(text);
+    let t = match guarded(move || parse_expression(src)) {
+        Ok(Ok(t)) => t,
+        _ => return None,
+    };
+    let t2 = t.clone();
+    let rendered = match guarded(move || (t2.expr(), t2.describe())) {
+        Ok((s, _)) => s,
+        Err(_) => return Some((Some("expr() or describe() panicked".into()), J::Null)),
+    };
+    let s2 = leak(&rendered);
+    let mut why = None;
+    match guarded(move || parse_expression(s2)) {
+        Ok(Ok(p2)) => {
+            if p2 != t {
+                why = Some(format!("expr() = {:?} re-parses to a different tree", rendered));
+            } else {
+                let s3 = p2.expr();
+                if s3 != rendered {
+                    why = Some(format!("rendering not idempotent: {:?} then {:?}", rendered, s3));
+                }
+            }
+        }
+        Ok(Err(e)) => why = Some(format!("expr() = {:?} is rejected: {}", rendered, e)),
+        Err(_) => why = Some(format!("parse of expr() = {:?} panicked", rendered)),
+    }
+    let lexed = tokens_of(&rendered);
+    let rec = json!({"text": esc(&rendered), "lex_ok": lexed.is_some(), "toks": lexed.unwrap_or_default(), "ok": true, "panic": false, "ast": ast_to_json(&t), "from": esc(text)});
+    Some((why, rec))
+}
+
+/// C12 leg R: every accepted behaviour TLC enumerated, concretised, parsed, rendered, re-parsed.
+pub fn render_replay(args: &[String]) {
+    silence_panics();
+    let seed = arg_u64(args, "--seed", 1);
+    if let Some(f) = arg_value(args, "--ops-file") {
+        register_ops_file(&f);
+    }
+    let recs = read_ndjson(&args[0]);
+    let mut out = Out::new(None);
+    let mut trace = Out::new(arg_value(args, "--trace-out").as_deref());
+    let (mut n, mut bad, mut skipped) = (0u64, 0u64, 0u64);
+    for (idx, r) in recs.iter().enumerate() {
+        let toks = r["toks"].as_array().unwrap();
+        if !r["ok"].as_bool().unwrap() || r["v"] == "Unspecified" || !realizable(toks) {
+            skipped += 1;
+            continue;
+        }
+        let case = concretize(toks, seed, idx as u64, &|_| " ".to_string());
+        match render_check(&case.text) {
+            None => skipped += 1, // the parser rejected a MayAccept string (allowed) or diverges (C02/C05 report that)
+            Some((why, rec)) => {
+                n += 1;
+                if let Some(w) = why {
+                    bad += 1;
+                    out.line(&json!({"mismatch": idx, "text": case.text, "why": w}));
+                }
+                if !rec.is_null() {
+                    trace.line(&rec);
+                }
+            }
+        }
+    }
+    trace.flush();
+    out.line(&json!({"summary": {"checked": n, "mismatches": bad, "skipped": skipped}}));
+    out.flush();
+}
+
+/// C12 leg T: random programs.
+pub fn render_record(args: &[String]) {
+    silence_panics();
+    let seed = arg_u64(args, "--seed", 1);
+    let n = arg_u64(args, "--n", 500);
+    let mut user_ops: Vec<String> = Vec::new();
+    if let Some(f) = arg_value(args, "--ops-file") {
+        register_ops_file(&f);
+        let ops: J = serde_json::from_str(&std::fs::read_to_string(&f).unwrap()).unwrap();
+        user_ops = ops.as_array().unwrap().iter().map(|o| o[0].as_str().unwrap().to_string()).collect();
+    }
+    let mut out = Out::new(None);
+    let mut trace = Out::new(arg_value(args, "--trace-out").as_deref());
+    let mut rng = rng(seed, 30);
+    let (mut checked, mut bad) = (0u64, 0u64);
+    for k in 0..n {
+        let toks = gen_program(&mut rng, &user_ops);
+        let text = toks.join(" ");
+        if let Some((why, rec)) = render_check(&text) {
+            checked += 1;
+            if let Some(w) = why {
+                bad += 1;
+                out.line(&json!({"mismatch": k, "text": text, "why": w}));
+            }
+            if !rec.is_null() {
+                trace.line(&rec);
+            }
+        }
+    }
+    trace.flush();
+    out.line(&json!({"summary": {"checked": checked, "mismatches": bad, "skipped": n - checked}}));
+    out.flush();
+}
+
+const GAPS: &[&str] = &[" ", "\t", "\r", "\n", "  ", " \n\t ", "\r\n"];
+
+fn is_delim_tok(t: &J) -> bool {
+    t[0] == "delim"
+}
+
+/// C11 leg R: layouts.  For each accepted record: the single-space layout is the reference; every other layout
+/// (whitespace strings over {space, tab, CR, LF} at every gap, nothing at all next to a delimiter) must give the
+/// same token kinds/texts and the same tree.
+pub fn layout_replay(args: &[String]) {
+    silence_panics();
+    let seed = arg_u64(args, "--seed", 1);
+    let layouts = arg_u64(args, "--layouts", 4);
+    if let Some(f) = arg_value(args, "--ops-file") {
+        register_ops_file(&f);
+    }
+    let recs = read_ndjson(&args[0]);
+    let mut out = Out::new(None);
+    let mut trace = Out::new(arg_value(args, "--trace-out").as_deref());
+    let (mut n, mut bad, mut skipped, mut variants) = (0u64, 0u64, 0u64, 0u64);
+    for (idx, r) in recs.iter().enumerate() {
+        let toks = r["toks"].as_array().unwrap();
+        if !r["ok"].as_bool().unwrap() || r["v"] == "Unspecified" || !realizable(toks) || toks.is_empty() {
+            skipped += 1;
+            continue;
+        }
+        let base = concretize(toks, seed, idx as u64, &|_| " ".to_string());
+        let (ok0, p0, ast0) = parse_observe(&base.text);
+        if !ok0 || p0 {
+            skipped += 1;
+            continue;
+        }
+        let toks0 = tokens_of(&base.text);
+        n += 1;
+        let mut lrng = rng(seed, 5000 + idx as u64);
+        for l in 0..layouts {
+            let gaps: Vec<String> = (0..toks.len() + 1)
+                .map(|i| {
+                    let edge = i == 0 || i == toks.len();
+                    let near_delim = !edge && (is_delim_tok(&toks[i - 1]) || is_delim_tok(&toks[i]));
+                    if (edge || near_delim) && lrng.gen_bool(0.4) { String::new() } else { GAPS[lrng.gen_range(0..GAPS.len())].to_string() }
+                })
+                .collect();
+            let v = concretize(toks, seed, idx as u64, &|i| gaps[i].clone());
+            let text = format!("{}{}{}", gaps[0], v.text, gaps[toks.len()]);
+            let (ok, pn, ast) = parse_observe(&text);
+            let tk = tokens_of(&text);
+            variants += 1;
+            if pn || !ok || ast != ast0 || tk != toks0 {
+                bad += 1;
+                out.line(&json!({"mismatch": idx, "layout": l, "text": text, "base": base.text,
+                                 "why": if pn {"panic"} else if !ok {"rejected under another layout"} else if tk != toks0 {"token kinds/texts changed"} else {"tree changed"}}));
+            }
+            if l == 0 {
+                trace.line(&json!({"text": esc(&text), "lex_ok": tk.is_some(), "toks": tk.unwrap_or_default(), "ok": ok, "panic": pn, "ast": if ok { ast } else { json!([]) }}));
+            }
+        }
+    }
+    trace.flush();
+    out.line(&json!({"summary": {"checked": n, "variants": variants, "mismatches": bad, "skipped": skipped}}));
+    out.flush();
+}
+
+/// C11 leg R: paren multiplicity.  Each record is a token string with redundant parentheses around every
+/// sub-expression (Render!Wrap, k = 1); every parenthesis is written `mult` times.
+pub fn paren_replay(args: &[String]) {
+    silence_panics();
+    let seed = arg_u64(args, "--seed", 1);
+    let mult = arg_u64(args, "--mult", 2) as usize;
+    let single = args.iter().any(|a| a == "--single");
+    if let Some(f) = arg_value(args, "--ops-file") {
+        register_ops_file(&f);
+    }
+    let recs = read_ndjson(&args[0]);
+    let mut out = Out::new(None);
+    let (mut n, mut bad, mut toodeep) = (0u64, 0u64, 0u64);
+    for (idx, r) in recs.iter().enumerate() {
+        let toks = r["toks"].as_array().unwrap();
+        // multiply only parentheses that are *not* call parentheses; with --single only one (seeded) pair
+        let mut multiplied: Vec<J> = Vec::new();
+        let mut stack: Vec<(bool, usize)> = Vec::new(); // (is_call, pair number)
+        let npairs = toks.iter().enumerate().filter(|(i, t)| t[0] == "delim" && t[1] == "(" && !(*i > 0 && toks[*i - 1][0] == "fun")).count();
+        let chosen = if single && npairs > 0 { Some(rng(seed, 7000 + idx as u64).gen_range(0..npairs)) } else { None };
+        let mut pair_no = 0usize;
+        for (i, t) in toks.iter().enumerate() {
+            if t[0] == "delim" && t[1] == "(" {
+                let is_call = i > 0 && toks[i - 1][0] == "fun";
+                let me = pair_no;
+                if !is_call {
+                    pair_no += 1;
+                }
+                stack.push((is_call, me));
+                let m = if is_call { 1 } else if single { if chosen == Some(me) { mult } else { 1 } } else { mult };
+                for _ in 0..m {
+                    multiplied.push(t.clone());
+                }
+            } else if t[0] == "delim" && t[1] == ")" {
+                let (is_call, me) = stack.pop().unwrap_or((false, usize::MAX));
+                let m = if is_call { 1 } else if single { if chosen == Some(me) { mult } else { 1 } } else { mult };
+                for _ in 0..m {
+                    multiplied.push(t.clone());
+                }
+            } else {
+                multiplied.push(t.clone());
+            }
+        }
+        let case = concretize(&multiplied, seed, idx as u64, &|_| " ".to_string());
+        let (ok, pn, ast) = parse_observe(&case.text);
+        n += 1;
+        let abs = if ok { map_leaves(&ast, &|k, t| case.back.get(&(k.to_string(), t.to_string())).cloned().unwrap_or_else(|| format!("?{}", t))) } else { J::Null };
+        if pn || (ok && abs != r["ast"]) {
+            bad += 1;
+            out.line(&json!({"mismatch": idx, "text": case.text, "why": if pn {"panic"} else {"tree changed by redundant parentheses"}, "ntoks": multiplied.len()}));
+        } else if !ok {
+            // rejected: only the nesting budget may do that, and only for long inputs (the grammar's TokenFloor)
+            if multiplied.len() <= 200 {
+                bad += 1;
+                out.line(&json!({"mismatch": idx, "text": case.text, "why": "rejected with redundant parentheses", "ntoks": multiplied.len()}));
+            } else {
+                toodeep += 1;
+            }
+        }
+    }
+    out.line(&json!({"summary": {"checked": n, "mismatches": bad, "beyond_budget": toodeep}}));
+    out.flush();
+}
+
+pub fn render_one(args: &[String]) {
+    silence_panics();
+    if let Some(f) = arg_value(args, "--ops-file") {
+        register_ops_file(&f);
+    }
+    match render_check(&args[0]) {
+        None => println!("{}", json!({"parsed": false})),
+        Some((why, rec)) => println!("{}", json!({"parsed": true, "why": why, "expr": rec["text"]})),
+    }
 }
